@@ -46,7 +46,7 @@ def close(a, b, scale):
 
 
 @with_signature(SPEC)
-def c14_pdm(**kw):
+def c14_pdm(kw):
     tree, nodes = build(kw)
     leaves = [nd for nd in nodes if not nd._child_nodes]
     nl = len(leaves)
@@ -152,7 +152,7 @@ def deepest_covering(tree, labels):
 
 
 @with_signature(SPEC)
-def c14_mrca(**kw):
+def c14_mrca(kw):
     tree, nodes = tg.build(list(kw["shape"]), None, rooted=True)
     leaves = [nd for nd in nodes if not nd._child_nodes]
     nl = len(leaves)
@@ -201,7 +201,7 @@ def c14_mrca(**kw):
 
 
 @with_signature(SPEC)
-def c14_nj(**kw):
+def c14_nj(kw):
     """NJ on the distances of a binary unrooted tree with positive lengths gives the tree back"""
     parents = list(kw["shape"])
     n = len(parents) + 1
@@ -230,7 +230,7 @@ def c14_nj(**kw):
 
 
 @with_signature(SPEC)
-def c14_upgma(**kw):
+def c14_upgma(kw):
     """UPGMA on the distances of an ultrametric tree gives the rooted tree back"""
     parents = list(kw["shape"])
     n = len(parents) + 1
@@ -271,7 +271,7 @@ def c14_upgma(**kw):
 
 
 @with_signature(SPEC)
-def c14_csv(**kw):
+def c14_csv(kw):
     """write_csv -> from_csv gives the same distances (text is concrete at the csv module)"""
     parents = list(kw["shape"])
     n = len(parents) + 1
